@@ -164,8 +164,10 @@ class Emitter:
             return f"(TEnum {coq_str(t[1])})"
         if k == "lit":
             return "(TLit " + cl([self.lit_json(s) for s in t[1]]) + ")"
-        if k in ("list", "seq", "deque", "tuplevar"):
-            return f"(TList {self.ty(t[1])})"
+        if k in ("list", "seq", "deque"):
+            return f"(TList false {self.ty(t[1])})"
+        if k == "tuplevar":
+            return f"(TList true {self.ty(t[1])})"
         if k in ("set", "frozenset"):
             return f"(TSet {self.ty(t[1])})"
         if k == "tuple":
@@ -181,7 +183,7 @@ class Emitter:
         if k == "counter":
             return f"(TDict {self.ty(t[1])} TInt)"
         if k == "chainmap":
-            return f"(TList (TDict {self.ty(t[1])} {self.ty(t[2])}))"
+            return f"(TList false (TDict {self.ty(t[1])} {self.ty(t[2])}))"
         if k in ("opt", "union"):
             ms = self.flatten_union([t])
             if len(ms) == 1:
@@ -205,10 +207,7 @@ class Emitter:
         if k == "data":
             return f"(TData {coq_str(t[1])})"
         if k == "nt":
-            d = self.tbl.by_name[t[1]]
-            if not d["fields"]:
-                return "(TList TAny)"       # a field-less NamedTuple gets {"type": "array"} (no bounds)
-            return "(TTuple " + cl([f"(false, {self.ty(f['type'])})" for f in d["fields"]]) + ")"
+            return f"(TNamed {coq_str(t[1])})"
         if k == "td":
             return f"(TTyped {coq_str(t[1])})"
         raise OutOfModel(k)
@@ -222,26 +221,37 @@ class Emitter:
         return json_term(v)
 
     def env(self) -> str:
-        classes, typeds, enums = [], [], []
+        classes, typeds, nts, enums = [], [], [], []
+        ov = {None: "None", "as_dict": "(Some true)", "as_list": "(Some false)"}
         for d in self.tbl.decls:
             if d["kind"] == "data":
                 if d["tvars"]:
                     continue
                 fs = []
                 for f in d["fields"]:
+                    if f["default"] is not None and f["default"][1] == "None" and not G.nullable_spec(f["type"]) \
+                            and (d.get("cfg") or {}).get("omit_none"):
+                        # is_field_nullable also counts "default is None": Literal[.., None] = None is dropped by
+                        # omit_none although the type alone is not nullable; the model decides by the type
+                        raise OutOfModel("non-nullable type with default None under omit_none")
                     key = f["alias"] if f["alias"] is not None else f["name"]
-                    fs.append(f"(mkF {coq_str(f['name'])} {coq_str(key)} {self.ty(f['type'])} {cbool(f['default'] is not None)} {cbool(f['init'])})")
-                classes.append(f"(mkC {coq_str(d['name'])} {coq_str(d['clsname'])} {cl(fs)})")
+                    fs.append(f"(mkF {coq_str(f['name'])} {coq_str(key)} {self.ty(f['type'])} {cbool(f['default'] is not None)} {cbool(f['init'])} {ov[f.get('nt_override')]})")
+                cfg = d.get("cfg") or {}
+                classes.append(f"(mkC {coq_str(d['name'])} {coq_str(d['clsname'])} {cl(fs)} {cbool(cfg.get('nt_as_dict'))} {cbool(cfg.get('omit_none'))})")
+            elif d["kind"] == "nt":
+                fs = [f"(mkF {coq_str(f['name'])} {coq_str(f['name'])} {self.ty(f['type'])} {cbool(f['default'] is not None)} true None)"
+                      for f in d["fields"]]
+                nts.append(f"(mkC {coq_str(d['name'])} {coq_str(d['clsname'])} {cl(fs)} false false)")
             elif d["kind"] == "td":
                 fs = []
                 for f in d["fields"]:
                     required = (d["total"] and f["marker"] != "NotRequired") or f["marker"] == "Required"
-                    fs.append(f"(mkF {coq_str(f['name'])} {coq_str(f['name'])} {self.ty(f['type'])} {cbool(not required)} true)")
-                typeds.append(f"(mkC {coq_str(d['name'])} {coq_str(d['clsname'])} {cl(fs)})")
+                    fs.append(f"(mkF {coq_str(f['name'])} {coq_str(f['name'])} {self.ty(f['type'])} {cbool(not required)} true None)")
+                typeds.append(f"(mkC {coq_str(d['name'])} {coq_str(d['clsname'])} {cl(fs)} false false)")
             elif d["kind"] == "enum":
                 vals = [json_term(m.value) for m in self.ns[d["name"]]]
                 enums.append(f"(mkE {coq_str(d['name'])} {cl(vals)} {cbool(d['base'] in ('Flag', 'IntFlag'))})")
-        return f"(mkEnv {cl(classes)} {cl(typeds)} {cl(enums)})"
+        return f"(mkEnv {cl(classes)} {cl(typeds)} {cl(nts)} {cl(enums)})"
 
     # ------------------------------------------------------------ values (type directed, on real objects)
     def leaf_wire(self, kind, v) -> str:
